@@ -225,7 +225,8 @@ def run_one(seed, preset=None, tier="quick", want_case=False):
     tape = Tape(seed, preset)
     cfgt = tape.sub("cfg")
     ot = tape.sub("ops")
-    assert not [k for k in SchemaRegistry._schemas if k.startswith("C17_")], "registry not clean at run start"
+    store = getattr(SchemaRegistry, "_schemas", None)
+    assert not (isinstance(store, dict) and [k for k in store if k.startswith("C17_")]), "registry not clean at run start"
     bundles = gen_bundles(tape, seed)
     # solo references first: the children fork from the state *before* anything of this run is registered
     solos = {}
